@@ -473,11 +473,38 @@ impl TypedScenario for C08Residue {
     }
 }
 
+/// A peer that paces its writes: the preamble of every stream it opens arrives in pieces that
+/// are 5.5-15 s apart. Each stream is still handed to the application exactly once with its
+/// own bytes. C01's raw-preamble scenario in its "paced" mode, reported under C08.
+pub struct C08Paced;
+
+impl TypedScenario for C08Paced {
+    type Plan = crate::props::c01::RawPlan;
+    fn name(&self) -> &'static str {
+        "raw-paced-preamble"
+    }
+    fn budget(&self, tier: Tier) -> usize {
+        match tier {
+            Tier::Quick => 1500,
+            Tier::Thorough => 150_000,
+        }
+    }
+    fn generate(&self, seed: u64, index: usize, _tier: Tier) -> Self::Plan {
+        crate::props::c01::gen_raw_plan(seed ^ 0xc08, index, true)
+    }
+    fn execute(&self, plan: &Self::Plan, trace: bool) -> Exec {
+        crate::props::c01::exec_raw(plan, trace).relabel("C01/", "C08/")
+    }
+    fn shrink(&self, plan: &Self::Plan) -> Vec<Self::Plan> {
+        crate::props::c01::shrink_raw(plan)
+    }
+}
+
 pub fn def() -> PropertyDef {
     PropertyDef {
         id: "C08",
-        scenarios: vec![Box::new(Typed(C08E2E { faulty: false })), Box::new(Typed(C08E2E { faulty: true })), Box::new(Typed(C08Residue))],
-        rule: "Each run: real client and server with a concurrent-stream limit of 4/5/8/16; the opener (client or server) opens 1..2x (quick) / 1..3x (thorough) the limit streams (all uni, all bidi or mixed; in one burst or spread over 100 ms), each carrying a unique tag of 14..2000 bytes, and finishes them; the other side accepts with 1-4 tasks per kind, each with its own start time (in a fifth of the runs nobody accepts for the first 6-12 s), per-call delay (0..40 ms, up to 700 ms in those runs) and a cycle of deadlines (0 = polled exactly once, 1 us .. 30 ms, or none) after which the pending accept future is dropped and reissued; in a third of the runs all but one task per kind leave after 1-3 streams or at their first deadline (the task that polled last must not take the next wake-up with it); in a quarter of the runs the opener first sends 2-6 datagrams that nobody reads, and in another quarter it abandons 1-2 openings between their two awaits (streams that end without a byte). Oracle (bag model over the recorded history): every value returned by an accept call is a stream the peer opened, of the right kind, returned exactly once; every opened stream is returned within 120 s simulated; the bytes read from it are the tag it was opened with. e2e-credit-residue: C01's end-to-end transfer in its credit-residue mode (an unread bulk stream leaves 0-120 bytes of connection credit when further streams are opened): every stream is still delivered once with its own bytes. Fault batch: loss / duplication / reordering (a connection killed by the faults is inconclusive). Probe: number of accept calls cancelled. Non-trivial = at least one stream opened (and a fault fired in the fault batch); distinct = distinct plan hashes.",
+        scenarios: vec![Box::new(Typed(C08E2E { faulty: false })), Box::new(Typed(C08E2E { faulty: true })), Box::new(Typed(C08Residue)), Box::new(Typed(C08Paced))],
+        rule: "Each run: real client and server with a concurrent-stream limit of 4/5/8/16; the opener (client or server) opens 1..2x (quick) / 1..3x (thorough) the limit streams (all uni, all bidi or mixed; in one burst or spread over 100 ms), each carrying a unique tag of 14..2000 bytes, and finishes them; the other side accepts with 1-4 tasks per kind, each with its own start time (in a fifth of the runs nobody accepts for the first 6-12 s), per-call delay (0..40 ms, up to 700 ms in those runs) and a cycle of deadlines (0 = polled exactly once, 1 us .. 30 ms, or none) after which the pending accept future is dropped and reissued; in a third of the runs all but one task per kind leave after 1-3 streams or at their first deadline (the task that polled last must not take the next wake-up with it); in a quarter of the runs the opener first sends 2-6 datagrams that nobody reads, and in another quarter it abandons 1-2 openings between their two awaits (streams that end without a byte). Oracle (bag model over the recorded history): every value returned by an accept call is a stream the peer opened, of the right kind, returned exactly once; every opened stream is returned within 120 s simulated; the bytes read from it are the tag it was opened with. e2e-credit-residue: C01's end-to-end transfer in its credit-residue mode (an unread bulk stream leaves 0-120 bytes of connection credit when further streams are opened): every stream is still delivered once with its own bytes. raw-paced-preamble: C01's raw-preamble scenario with a peer that paces its writes (the preamble of each of the 1-4 streams it opens is cut at least once and the pieces are 5.5-15 s apart): every stream is handed to the application exactly once with exactly its payload, and nothing else is. Fault batch: loss / duplication / reordering (a connection killed by the faults is inconclusive). Probe: number of accept calls cancelled. Non-trivial = at least one stream opened (and a fault fired in the fault batch); distinct = distinct plan hashes.",
         assumptions: vec![
             "current-thread runtime only: parallel acceptors are modelled as interleavings at await points (the multi-thread half of the quantifier cannot be made replayable and is not claimed)",
             "quinn/rustls/tokio executed for real but trusted",
